@@ -102,6 +102,10 @@ def install(I, B):
             # cls.__new__(cls) of a list subclass is an empty list
             attrs = dict(attrs)
             attrs["__list__"] = st.alloc(ListE([]))
+        if I.is_subclass(cls, BuiltinClass("dict", dict)) and "__dictdata__" not in attrs:
+            # cls.__new__(cls) of a dict subclass is an empty dict
+            attrs = dict(attrs)
+            attrs["__dictdata__"] = st.alloc(DictE({}))
         return st.alloc(ObjE(cls, attrs))
 
     reg("new", new)
